@@ -342,7 +342,7 @@ MANIFEST_TEXT = {
         level_text="Proof: for every archive (any entries, names, link targets, order) and every initial file system with whatever symbolic links "
                    "it contains, extraction creates, re-binds or removes no path outside the destination and leaves the content and mode of "
                    "every file outside it unchanged, whether it succeeds or stops with an error (hypothesis: the destination exists and no "
-                   "inode is shared across its boundary beforehand; the hypothesis is re-established for the next extraction) -- Coq theorem "
+                   "inode is shared across its boundary beforehand; the hypothesis is re-established for the next extraction); and the positive half: on a link-free tree, after a successful extraction of an archive of regular files and directories with plain names every regular-file entry not overwritten by a later one is a file with exactly its content, every directory entry is a directory and everything bound before is still bound -- Coq theorems "
                    "over a symbolic file system with physical path resolution. The model is compared with real tar and zip extraction by "
                    "reading the whole scratch tree back (types, modes, payloads, link targets, inode sharing, success flag); the oracle checks "
                    "that everything outside the destination is as before and that a reported success reproduced every entry; entries cut "
